@@ -74,6 +74,24 @@ def tag_case(draw):
 
 
 @st.composite
+def gd_case(draw):
+    """gd (go to definition) puts the cursor on the name in the defining line: a character offset"""
+    pre = draw(st.lists(st.sampled_from(["é", "日", "😀", "ü", "x", " "]), max_size=6).map("".join))
+    kw = draw(st.sampled_from(["foo", "bar1", "t_x"]))
+    return {"kind": "gd", "kw": kw, "pre": pre, "key": draw(st.sampled_from(["r#", "x", "i|\x1b"]))}
+
+
+@st.composite
+def macro_overflow_case(draw):
+    """N@r / N. with more text than the 4 KiB input queue takes: whatever is dropped, characters must stay whole"""
+    ch = draw(st.sampled_from(["€", "é", "😀", "日"]))
+    n = draw(st.sampled_from([500, 700, 1000, 1400, 2100, 4100]))
+    if draw(st.booleans()):
+        return {"kind": "edit", "lines": ["ax" + ch + "\x1b", "y"], "keys": "\"ay$j%d@a" % n}
+    return {"kind": "edit", "lines": ["y", "z"], "keys": "ax" + ch + "\x1bj%d." % n}
+
+
+@st.composite
 def longline_case(draw):
     """registers and commands that copy a whole line through a fixed-size buffer"""
     unit = draw(mbline)
@@ -95,7 +113,7 @@ def hist_case(draw):
 
 
 def strategy(tier):
-    return st.one_of(ustring.map(lambda b: {"kind": "str", "s": b}), edit_case(), edit_case(), tag_case(), longline_case(), hist_case())
+    return st.one_of(ustring.map(lambda b: {"kind": "str", "s": b}), edit_case(), edit_case(), tag_case(), longline_case(), hist_case(), gd_case(), macro_overflow_case())
 
 
 # ------------------------------------------------------------------ oracle for the uc op
@@ -165,6 +183,26 @@ def run_case(env, c):
         if why:
             return Outcome(False, nt, ["str"], detail={"why": why, "s": b})
         return Outcome(True, nt, ["str", "len_%d" % min(len(b) // 50, 4)])
+    if c["kind"] == "gd":
+        d = env.fresh()
+        kw = c["kw"]
+        lines = [kw, "int " + c["pre"] + ", " + kw + ";", "z"]
+        runner.write_file(d, "t.c", gen.to_bytes(lines))
+        stdin = ("gd" + c["key"]).encode("utf-8") + b"\x1b:w! out\n" + runner.VI_TRAILER
+        r = runner.run_editor(env.paths["vi"], ["-v", "t.c"], stdin, d, rows=10, cols=60, want_stats=False)
+        if r.timeout:
+            return Outcome(True, False, ["gd", "timeout"], inconclusive=True)
+        if r.crashed():
+            return Outcome(False, True, ["gd", "crash"], detail={"why": "editor crashed", "sig": r.signature()})
+        out = runner.read_file(d, "out")
+        l2 = lines[1]
+        i = l2.index(kw)
+        w2 = {"r#": l2[:i] + "#" + l2[i + 1:], "x": l2[:i] + l2[i + 1:]}.get(c["key"], l2[:i] + "|" + l2[i:])
+        want = gen.to_bytes([lines[0], w2, lines[2]])
+        nt = any(ord(ch) > 127 for ch in c["pre"])
+        if out != want:
+            return Outcome(False, nt, ["gd"], detail={"why": "after gd the command did not act on the first character of the name in its defining line", "got": out, "want": want, "case": c})
+        return Outcome(True, nt, ["gd"])
     if c["kind"] == "tag":
         d = env.fresh()
         runner.write_file(d, "f", gen.to_bytes(c["lines"]))
